@@ -166,6 +166,15 @@ Definition explain (c : case_t) : list (list N) :=
   (if N.eqb (o_stage o) st_ok && evaluable f
    then map (fun r => map tag_id (run_flags f r)) (filter (run_bad f) (o_runs o)) else []).
 
+(* coverage: calls compared with the spec semantics in total / outside every signature *)
+Definition run_counts (cs : list case_t) : N * N :=
+  fold_left (fun acc c =>
+    let '(f, o) := c in
+    if N.eqb (o_stage o) st_ok && evaluable f then
+      (fst acc + N.of_nat (length (o_runs o)),
+       snd acc + N.of_nat (length (filter (fun r => is_nil (run_flags f r)) (o_runs o))))%N
+    else acc) cs (0, 0)%N.
+
 Definition mismatches (cs : list case_t) : list nat := find_idx mismatch cs.
 Definition violations (cs : list case_t) : list nat := find_idx violates cs.
 Definition violations_full (cs : list case_t) : list nat := find_idx violates_full cs.
